@@ -294,13 +294,19 @@ theorem hspec_pushKnown (sid promised : Int) (hs : List Header) (c : Conn) (hl :
     · intro a st' hr hl'
       obtain ⟨frames, evs⟩ := a
       wps
-      apply wp_beginNewStream_live _ _ _ hl'
+      unfold openInboundStreams
+      wps
+      apply wp_openStreams_wf _ _ hl'.wf
+      intro n c1 hwf1 hcs1 _ _ _
+      have hl1 : Live c1 := ⟨hwf1.1, by rw [hcs1]; exact hl'.2.1, hwf1.2 (by rw [hcs1]; exact hl'.2.1)⟩
+      wps
+      apply wp_beginNewStream_live _ _ _ hl1
       · intro c' hf _
         wps
         apply wp_withStream_fresh _ _ _ _ hf (fun st => sgood_remotelyPushed hs st) (res_remotelyPushed hs)
         · intro a2 st2 _ hl2; wps; exact ⟨hl2.wf, framesOk_of_noFrames hr⟩
         · intro e st2 hce; exact hce
-      · intro e he; exact CE_wf he hl'.wf
+      · intro e he; exact CE_wf he hl1.wf
     · intro e st' hce
       split
       · rename_i hc
